@@ -292,6 +292,17 @@ impl C08m {
 impl Monitor for C08m {
     fn after(&mut self, w: &mut World, obs: &Obs, acc: &mut Acc) {
         let n = obs.ix.name;
+        // removing liquidity returns the amounts: a withdrawal that passed every check of the program must not die in the
+        // token transfer because the pool cannot sign for its own vault (PDA seeds that do not derive the pool's address)
+        if !obs.ok() && (n.starts_with("decrease_liquidity") || n == "reposition_liquidity_v2" || n.starts_with("collect_fees")) {
+            use crate::svm::TxErr;
+            let bad = matches!(&obs.out.err, Some(TxErr::Cpi(c)) | Some(TxErr::Code(c)) if *c == 14u64 << 32 || *c == 8u64 << 32)
+                || matches!(&obs.out.err, Some(TxErr::Runtime(m)) if m.contains("signer privilege") || m.contains("seeds"));
+            acc.count("failed_withdrawals_seen");
+            if bad {
+                acc.violation(format!("c08:pool_cannot_sign_for_its_vault:{n}"), format!("{n} failed in the vault transfer with {:?}: the pool's signer seeds do not authorise its vault", obs.out.err), json!({"instruction": ix_brief(&obs.ix)}));
+            }
+        }
         let inc = n == "increase_liquidity" || n == "increase_liquidity_v2";
         let dec = n == "decrease_liquidity" || n == "decrease_liquidity_v2";
         let by_amounts = n == "increase_liquidity_by_token_amounts_v2";
